@@ -116,6 +116,10 @@ def gen_plan(rng, tier, idx, opts):
             plan["ops"].append({"op": "freq", "fft": fft, "sel": sel, "blocks": rng.randint(1, 4), "seed": s()})
             if rng.random() < 0.15:
                 plan["ops"][-1]["no_fetch"] = True
+        elif r < 0.765:
+            # ANOTHER channel object built on the very same (discretised) profile object makes a frequency-domain transmission
+            # with its own FFT size in between (two links of one scenario)
+            plan["ops"].append({"op": "other_channel", "fft": rng.choice([4, 8, 16, 32, 64]), "blocks": rng.randint(1, 3), "seed": s()})
         elif r < 0.775:
             # a frequency-domain transmission that FAILS half-way (a subcarrier index outside the FFT): the caller catches the
             # error and goes on using the channel
@@ -268,6 +272,7 @@ def execute(plan):
     switched = False
     tx_count = 0
     held = []
+    other_ch = [None]
     last_kind = None
 
     def viol(inv, step, detail, **sig):
@@ -333,6 +338,20 @@ def execute(plan):
                         break
                     switched = bool(pub)
                     log.add("switch_bad", op["v"], switched)
+                    continue
+                if o == "other_channel":
+                    if other_ch[0] is None:
+                        try:
+                            other_ch[0] = fading.TdlChannel(fading_generators.RayleighSampleGenerator(), channel_profile=ch.channel_profile)
+                        except Exception:       # noqa: BLE001  (e.g. a wrapper that does not expose its profile): nothing to share
+                            other_ch[0] = False
+                    if other_ch[0]:
+                        rs_ = np.random.RandomState(op["seed"])
+                        nb_ = op["fft"] * op["blocks"]
+                        np.random.seed(op["seed"] % (1 << 31))
+                        other_ch[0].corrupt_data_in_freq_domain(rs_.randn(nb_) + 1j * rs_.randn(nb_), op["fft"])
+                        bump(res["probes"], "another_channel_on_the_same_profile_object_transmitted")
+                    log.add("other_channel", op["fft"])
                     continue
                 if o == "freq_bad":
                     rs_ = np.random.RandomState(op["seed"])
